@@ -6,6 +6,7 @@ import (
 	"sort"
 	"strings"
 	"sync"
+	"time"
 
 	"github.com/ipfs/go-cid"
 
@@ -248,6 +249,17 @@ func c01Eval(ctx *engine.Ctx, u *c01Univ, dir string, iss, sub int, chain []int,
 		inv := u.mkInv(iss, sub, prf, opts)
 		e1, e2 := bothVerdictsGuarded(inv, u.loader)
 		ctx.Eval(2)
+		// the other optional fields of an invocation have no say either: the same invocation with a cause, an expiration
+		// far away and metadata gets the same two verdicts
+		if aud >= 0 {
+			cause := cidPool[5]
+			full := u.mkInv(iss, sub, prf, append(append([]invocation.Option{}, opts...), invocation.WithCause(&cause), invocation.WithExpiration(time.Date(2200, 1, 1, 0, 0, 0, 0, time.UTC)), invocation.WithMeta("k", "v")))
+			f1, f2 := bothVerdictsGuarded(full, u.loader)
+			ctx.Eval(2)
+			if (f1 == nil) != (e1 == nil) || (f2 == nil) != (e2 == nil) {
+				ctx.Failf(&c01Case{Iss: iss, Sub: sub, Chain: append([]int{}, chain...)}, "optional-fields-change-the-decision", "inv(iss=p%d,sub=p%d,aud=%d) with chain %v: %s without cause / expiration / metadata, %s with them", iss, sub, aud, c01Describe(chain), errLabel(e1), errLabel(f1))
+			}
+		}
 		l1, l2 := errLabel(e1), errLabel(e2)
 		ctx.Outcome(l1)
 		ctx.Outcome("hook:" + l2)
